@@ -202,6 +202,15 @@ theorem updateStats_frame (o : OrbState) (t : TransferAttrs) (f : Forwarding) : 
 
 /-! ### folds in the result monad -/
 
+/-- A guard statement of a `do` block (`if c then .err e else pure ()`, compiled to a join point). -/
+theorem Res.guard_bind_eq_ok {α} {c : Prop} [Decidable c] {e : String} {k : Unit → Res α} {r : α} :
+    (if c then ((Res.err e : Res Unit) >>= k) else k ()) = .ok r ↔ ¬ c ∧ k () = .ok r := by
+  by_cases h : c <;> simp [h]
+
+theorem Res.guard_panic_bind_eq_ok {α} {c : Prop} [Decidable c] {e : String} {k : Unit → Res α} {r : α} :
+    (if c then ((Res.panic e : Res Unit) >>= k) else k ()) = .ok r ↔ ¬ c ∧ k () = .ok r := by
+  by_cases h : c <;> simp [h]
+
 theorem Res.foldlM_inv {α β} (f : β → α → Res β) (P : β → Prop)
     (hf : ∀ b a b', P b → f b a = .ok b' → P b') (l : List α) (b b' : β) (hb : P b)
     (h : l.foldlM f b = .ok b') : P b' := by
